@@ -26,6 +26,7 @@ template internal::Byte* VPool::pvGetNextBufferPosition(internal::Byte*) const n
 template internal::Byte* VPool::pvGetBeginOffsetPosition(internal::Byte*) const noexcept;
 template void VPool::pvMoveBufferToHead(internal::Byte*) noexcept;
 template void VPool::MergeFrom(VPool&);
+template void VPool::Swap(VPool&) noexcept;
 }
 namespace momo { namespace internal {
 template size_t UIntMath<size_t>::Ceil(size_t, size_t) noexcept;
@@ -35,4 +36,8 @@ typedef MemPoolUInt32<32, MemManagerDefault> VPool32;
 template void* VPool32::GetRealPointer<void>(uint32_t) noexcept;
 template size_t VPool32::pvGetBufferSize() const noexcept;
 template void VPool32::pvNewBuffer();
+template void VPool32::pvClear() noexcept;
+template uint32_t VPool32::Allocate();
+template void VPool32::Deallocate(uint32_t) noexcept;
+template void VPool32::DeallocateAll() noexcept;
 }}
